@@ -50,7 +50,7 @@ PROBES = ["kitty_chunked_transfer", "cut_inside_apc_payload", "cut_inside_csi", 
           "retained_remainder_delivered_later", "old_api", "new_api", "still_image_propagates",
           "interrupted_flush_delivers_prefix", "write_cut_inside_earlier_buffered_data",
           "echo_already_off_on_entry", "stdout_not_a_tty",
-          "animation_ends_silently"]
+          "animation_ends_silently", "stream_died_with_the_failure"]
 COMPONENTS = {
     "real": ["Renderable.draw/_animate_/_init_render_/_handle_interrupted_draw_ call sites",
              "RenderIterator", "BaseImage.draw/_display_animated/_renderer",
@@ -270,19 +270,28 @@ def run(ch, ctx, fault=None):
                 dw.terminal_restored(vt, tty, entry, True, dict(inf, phase=phase), where,
                                      after=phase, strings_only=True)
 
-            if isatty:
+            stream_dead = bool(f.get("closes"))
+            if stream_dead:
+                # the stream shut itself down with the failure: nothing more can be written,
+                # so nothing about the screen is demanded - everything else still is
+                ctx.probe("stream_died_with_the_failure")
+                ctx.nontrivial = True
+                check(tty.attrs == entry, "terminal_attributes_not_restored",
+                      lambda: dict(inf, lflag_entry=entry[3], lflag_now=tty.attrs[3]), where)
+            if isatty and not stream_dead:
                 post_state("immediately")
             # (a stdout that is not a tty is fully buffered: what the library wrote last reaches
             # the terminal when the stream's owner flushes it, at the latest at exit - only that
             # state can be judged)
             out.drain()
-            post_state("after_later_flush")
-            # the terminal is not swallowing output: a probe glyph lands on the grid
-            pr, pc = vt.r, vt.c
-            vt.feed(b"ZZZ")
-            landed = any(cell[0] == "Z" for cell in vt.grid[pr]) or \
-                any(cell[0] == "Z" for cell in vt.grid[min(rows - 1, pr + 1)])
-            check(landed, "terminal_swallows_subsequent_output", inf, where)
+            if not stream_dead:
+                post_state("after_later_flush")
+                # the terminal is not swallowing output: a probe glyph lands on the grid
+                pr, pc = vt.r, vt.c
+                vt.feed(b"ZZZ")
+                landed = any(cell[0] == "Z" for cell in vt.grid[pr]) or \
+                    any(cell[0] == "Z" for cell in vt.grid[min(rows - 1, pr + 1)])
+                check(landed, "terminal_swallows_subsequent_output", inf, where)
             if api == "new":
                 bad = {t: c for t, c in hooks.final_count.items() if c != 1}
                 check(not bad, "render_data_not_finalized_exactly_once",
@@ -297,7 +306,9 @@ def run(ch, ctx, fault=None):
                 check(sc.image.tell() == tell_before, "current_frame_changed",
                       dict(inf, tell=sc.image.tell(), before=tell_before), where)
             injected = f.get("exc", "KeyboardInterrupt")
-            if not animation:
+            if stream_dead:
+                check(exc is not None, "failure_of_a_dead_stream_swallowed", inf, where)
+            elif not animation:
                 ctx.probe("still_image_propagates")
                 check(exc is not None and type(exc).__name__ in (
                     injected, "InterruptedError" if injected == "EINTR" else injected,
@@ -327,6 +338,10 @@ def faults(ctx, ch):
         err = {"out.write": "OSError", "out.flush": "OSError", "render": "RuntimeError"}.get(kind)
         if err:
             out.append(dict(base, when="before", exc=err))
+        if err and kind != "render" and kk % 2:
+            # ... and the stream shuts itself down with the failure (EPIPE: the terminal went
+            # away): every later write of the clean-up fails as well
+            out.append(dict(base, when="before", exc=err, closes=True))
         if kind == "out.flush" and text:
             for cut in cut_points(text, dense):
                 cls = classify_cut(text, cut)
